@@ -42,7 +42,7 @@ def run_cfg(ctx, name, text, expect_violation=None, workers=8):
 def fresh_outcomes(names):
     """each call alone in its own fresh interpreter (in parallel)"""
     here = os.path.dirname(os.path.dirname(os.path.dirname(os.path.abspath(__file__))))       # /verif/harness
-    env = dict(os.environ, PYTHONPATH=here + ":/repo", PYTHONDONTWRITEBYTECODE="1", MPLBACKEND="Agg", PYTHONHASHSEED="0", OMP_NUM_THREADS="1")
+    env = dict(os.environ, PYTHONPATH=here + ":" + os.environ.get("PV_REPO", "/repo"), PYTHONDONTWRITEBYTECODE="1", MPLBACKEND="Agg", PYTHONHASHSEED="0", OMP_NUM_THREADS="1")
 
     def one(name):
         p = subprocess.run([sys.executable, "-m", "pv.fresh", name, str(SEED0)], env=env, stdout=subprocess.PIPE, stderr=subprocess.PIPE, text=True, timeout=600)
